@@ -24,6 +24,7 @@ import (
 	"github.com/aptpod/iscp-go/transport"
 	"github.com/aptpod/iscp-go/wire"
 	autogen "github.com/aptpod/iscp-proto/gen/gogofast/iscp2/v1"
+	"github.com/gogo/protobuf/jsonpb"
 	uuid "github.com/google/uuid"
 	"verif.local/harness/lp"
 )
@@ -175,13 +176,13 @@ func (g *gen) fill(v reflect.Value, depth int) {
 			v.Set(reflect.ValueOf(m))
 		case tDIDOrA:
 			if (g.variant+g.rng.Intn(2))%2 == 0 {
-				v.Set(reflect.ValueOf(message.DataIDAlias(g.rng.Uint32())))
+				v.Set(reflect.ValueOf(message.DataIDAlias(g.alias())))
 			} else {
 				v.Set(reflect.ValueOf(&message.DataID{Name: strPool[g.rng.Intn(len(strPool))], Type: strPool[g.rng.Intn(len(strPool))]}))
 			}
 		case tUpOrA:
 			if (g.variant+g.rng.Intn(2))%2 == 0 {
-				v.Set(reflect.ValueOf(message.UpstreamAlias(g.rng.Uint32())))
+				v.Set(reflect.ValueOf(message.UpstreamAlias(g.alias())))
 			} else {
 				u := &message.UpstreamInfo{}
 				g.fill(reflect.ValueOf(u).Elem(), depth+1)
@@ -189,6 +190,11 @@ func (g *gen) fill(v reflect.Value, depth int) {
 			}
 		}
 	}
+}
+
+// alias: the boundary values of an alias member first (0 is a legitimate alias: the oneof member is present and zero).
+func (g *gen) alias() uint32 {
+	return []uint32{0, 0, 1, 1<<32 - 1, g.rng.Uint32()}[g.rng.Intn(5)]
 }
 
 // norm: the documented canonical form used for comparison: absent collections are empty, absent extension records are empty
@@ -358,6 +364,9 @@ func main() {
 			out = strconv.Itoa(int(m.(*message.Disconnect).ResultCode))
 		}
 		h.Op(fmt.Sprintf("w2rc %d", v), out)
+		if _, known := autogen.ResultCode_name[int32(v)]; !known && out != "err" {
+			h.Violate(fmt.Sprintf("a result code number the wire enumeration does not have (%d) is accepted by the decoder as %s", v, out))
+		}
 	}
 	for v := -1; v <= 4; v++ {
 		out := "err"
@@ -370,6 +379,9 @@ func main() {
 			out = strconv.Itoa(int(m.(*message.UpstreamOpenRequest).QoS))
 		}
 		h.Op(fmt.Sprintf("w2qos %d", v), out)
+		if _, known := autogen.QoS_name[int32(v)]; !known && out != "err" {
+			h.Violate(fmt.Sprintf("a QoS number the wire enumeration does not have (%d) is accepted by the decoder as %s", v, out))
+		}
 	}
 	for _, ns := range []int64{0, 1, 999999999, 1000000000, 1500000000, 3600000000000, 123456789012345, 4294967295000000000} {
 		for _, c := range codecs {
@@ -431,6 +443,39 @@ func main() {
 				out = "too-large"
 			}
 			h.Op(fmt.Sprintf("gate %d %d", max, n), out)
+			if max > 0 && n > max && out != "too-large" {
+				h.Violate(fmt.Sprintf("a frame of %d bytes is not rejected as too large under a maximum message size of %d (error: %v)", n, max, err))
+			}
+		}
+	}
+	// ... and with well-formed frames around the limit (for JSON also padded with trailing white space)
+	for ci, c := range codecs {
+		var buf bytes.Buffer
+		c.enc.EncodeTo(&buf, &message.UpstreamMetadata{RequestID: 6, Metadata: &message.BaseTime{Name: "edge", Priority: 3}})
+		frame := buf.Bytes()
+		for _, d := range []int{-1, 0, 1, 40} {
+			for _, pad := range []int{0, 64} {
+				if pad > 0 && ci == 0 {
+					continue
+				}
+				b := append(append([]byte(nil), frame...), bytes.Repeat([]byte{' '}, pad)...)
+				max := len(frame) + d
+				p := &pipeRW{msgs: make(chan []byte, 1)}
+				tr := encoding.NewTransport(&encoding.TransportConfig{Transport: p, Encoding: c.enc, MaxMessageSize: encoding.Size(max)})
+				p.msgs <- b
+				m, err := tr.Read()
+				out := "pass"
+				if err != nil && errors.Is(err, errors.ErrMessageTooLarge) {
+					out = "too-large"
+				}
+				h.Op(fmt.Sprintf("gate %d %d", max, len(b)), out)
+				if len(b) > max && out != "too-large" {
+					h.Violate(fmt.Sprintf("%s: a well-formed frame of %d bytes is not rejected as too large under a maximum of %d (message %v, error %v)", c.name, len(b), max, m != nil, err))
+				}
+				if len(b) <= max && (err != nil || m == nil) {
+					h.Violate(fmt.Sprintf("%s: a well-formed frame of %d bytes is refused under a maximum of %d: %v", c.name, len(b), max, err))
+				}
+			}
 		}
 	}
 	h.Distinct("tables")
@@ -632,6 +677,26 @@ func main() {
 		{Message: &autogen.Message_DownstreamMetadata{DownstreamMetadata: &autogen.DownstreamMetadata{Metadata: &autogen.DownstreamMetadata_DownstreamOpen{DownstreamOpen: &autogen.DownstreamOpen{StreamId: []byte{1, 2}}}}}},
 		{Message: &autogen.Message_UpstreamChunkAck{UpstreamChunkAck: &autogen.UpstreamChunkAck{Results: []*autogen.UpstreamChunkResult{nil}, DataIdAliases: map[uint32]*autogen.DataID{3: nil}}}},
 		{Message: &autogen.Message_DownstreamOpenRequest{DownstreamOpenRequest: &autogen.DownstreamOpenRequest{DownstreamFilters: []*autogen.DownstreamFilter{nil, {DataFilters: []*autogen.DataFilter{nil}}}}}},
+	}
+	// unknown enumeration numbers must be refused outright, in both encodings
+	for _, q := range []int32{-1, 3, 4, 77} {
+		for k, pb := range []*autogen.Message{
+			{Message: &autogen.Message_UpstreamOpenRequest{UpstreamOpenRequest: &autogen.UpstreamOpenRequest{SessionId: "s", Qos: autogen.QoS(q)}}},
+			{Message: &autogen.Message_DownstreamOpenRequest{DownstreamOpenRequest: &autogen.DownstreamOpenRequest{Qos: autogen.QoS(q)}}},
+		} {
+			pbb, _ := pb.Marshal()
+			var jb bytes.Buffer
+			(&jsonpb.Marshaler{EmitDefaults: true, OrigName: true, EnumsAsInts: true}).Marshal(&jb, pb)
+			for ci, b := range [][]byte{pbb, jb.Bytes()} {
+				if len(b) == 0 {
+					continue
+				}
+				h.Count("fuzz:unknown-enum")
+				if _, m, err := codecs[ci].enc.DecodeFrom(bytes.NewReader(b)); err == nil {
+					h.Violate(fmt.Sprintf("%s decoder accepts QoS number %d, which the wire enumeration does not have, in message %d: %v", codecs[ci].name, q, k, m))
+				}
+			}
+		}
 	}
 	for k, pb := range bad {
 		b, err := func() (b []byte, err error) {
